@@ -79,7 +79,16 @@ def _reparse_timex(I, a, k):
     return I.instantiate(cls, [], {'timex': a[0]})
 
 
+def _model_cache(I, a, k):
+    for key, v in I.gcache.items():
+        if key[0] == 'cls' and key[2] == 'ModelFactory' and key[3] == '__cache':
+            return v
+    cls = I.repo.find('Python/libraries/recognizers-text/recognizers_text/model.py::ModelFactory')
+    return I.class_attr(cls, '__cache')
+
+
 NATIVE = {
+    'model_cache': _model_cache,
     'amount_shaped': _amount_shaped,
     'reparse_timex': _reparse_timex,
     'date_with': _date_with,
@@ -104,6 +113,13 @@ _UPPER = z3.Function('py_upper', z3.StringSort(), z3.StringSort())
 _STRIP = z3.Function('py_strip', z3.StringSort(), z3.StringSort())
 
 
+_ASCII_NO_UPPER = z3.Union(z3.Range(' ', '@'), z3.Range('[', '~'))
+_NO_UPPER_ASCII = z3.Star(_ASCII_NO_UPPER)
+_ASCII_GRAPH = z3.Range('!', '~')
+_NO_EDGE_SPACE_ASCII = z3.Union(z3.Re(''), _ASCII_GRAPH,
+                                z3.Concat(_ASCII_GRAPH, z3.Star(z3.Range(' ', '~')), _ASCII_GRAPH))
+
+
 def str_fun(I, name, s, args):
     t = I.term(s)
     if name == 'lower':
@@ -111,7 +127,9 @@ def str_fun(I, name, s, args):
         key = ('lower', t.get_id())
         if key not in I.p.ghost:
             I.p.ghost[key] = t     # pins the term (z3 reuses ids)
-            I.p.assume(_LOWER(r) == r)      # idempotent
+            # idempotent, length preserving except for U+0130 (not modelled here: see C01), identity on strings of
+            # ASCII characters without upper-case letters
+            I.p.assume(z3.And(_LOWER(r) == r, z3.Implies(z3.InRe(t, _NO_UPPER_ASCII), r == t)))
         return Sym(STR, r)
     if name == 'upper':
         return Sym(STR, _UPPER(t))
@@ -120,7 +138,8 @@ def str_fun(I, name, s, args):
         key = ('strip', t.get_id())
         if key not in I.p.ghost:
             I.p.ghost[key] = t     # pins the term (z3 reuses ids)
-            I.p.assume(z3.And(z3.Contains(t, r), z3.Length(r) <= z3.Length(t), _STRIP(r) == r))
+            I.p.assume(z3.And(z3.Contains(t, r), z3.Length(r) <= z3.Length(t), _STRIP(r) == r,
+                              z3.Implies(z3.InRe(t, _NO_EDGE_SPACE_ASCII), r == t)))
         return Sym(STR, r)
     raise Unsupported(f'str.{name} on symbolic string')
 
